@@ -101,6 +101,10 @@ def page_classes():
     c['ch_trailer_no_colon'] = _p(chunked(b'5\r\nhello\r\n0\r\nno colon here\r\n\r\n'))
     c['ch_trailer_nul'] = _p(chunked(b'5\r\nhello\r\n0\r\nX-\x00: \x00\xff\r\n\r\n'))
     c['ch_te_capital'] = _p(resp(ok_chunks, cl=False, headers=(b'Transfer-Encoding: Chunked',)))
+    # a Transfer-Encoding field without any coding in it
+    c['ch_te_empty'] = _p(resp(BODY, headers=(b'Transfer-Encoding:',)))
+    c['ch_te_commas'] = _p(resp(BODY, headers=(b'Transfer-Encoding: , ,',)))
+    c['ch_te_trailing_comma'] = _p(resp(ok_chunks, cl=False, headers=(b'Transfer-Encoding: chunked,',)))
     c['ch_zero_only'] = _p(chunked(b'0\r\n\r\n'))
     # ---- codings
     c['gz_corrupt_header'] = _p(resp(b'\x1f\x8b\xff\xff' + GZ[4:], headers=(b'Content-Encoding: gzip',)))
@@ -182,6 +186,11 @@ def robots_classes():
     c['rb_nul'] = _p(resp(b'User-agent: *\x00\nDisallow: /\x00x\n\x00\x00\x00', ct=b'text/plain'))
     c['rb_garbage_response'] = _p(b'\x00\x01 this is not http\r\n\r\n')
     c['rb_500'] = _p(resp(b'', status=b'HTTP/1.1 500 Oops'))
+    # status codes outside the classes a client expects: still "not a usable robots.txt", never an escape
+    c['rb_status_999'] = _p(resp(b'denied', status=b'HTTP/1.1 999 Request denied', ct=b'text/plain'))
+    c['rb_status_600'] = _p(resp(b'x', status=b'HTTP/1.1 600 Strange', ct=b'text/plain'))
+    c['rb_status_000'] = _p(resp(b'x', status=b'HTTP/1.1 000 Zero', ct=b'text/plain'))
+    c['rb_status_299'] = _p(resp(b'User-agent: *\nDisallow:\n', status=b'HTTP/1.1 299 Odd', ct=b'text/plain'))
     c['rb_redirect_bad'] = _p(resp(b'', status=b'HTTP/1.1 302 Found', headers=(b'Location: http://[',)))
     c['rb_close_immediately'] = _p(b'')
     c['rb_gzip_bad'] = _p(resp(b'\x1f\x8b\x08\x00' + b'\xff' * 20, ct=b'text/plain', headers=(b'Content-Encoding: gzip',)))
